@@ -1,8 +1,7 @@
 CONSTANTS
   MaxSteps = 1
-  MaxBudget = 2
   NIn = 2
-  Budgets <- MCBudgets
+  Budgets <- QBudgets
   FailOks <- MCFailOks
   Tools <- QTools
   InDom <- QInDom
@@ -17,6 +16,7 @@ CONSTANTS
   OutNs <- QOutNs
 INIT Init
 NEXT Next
+INVARIANT LawResIsEval
 INVARIANT LawTotal
 INVARIANT LawFlatIsFlattenedNest
 INVARIANT LawScatterSizes
